@@ -96,7 +96,7 @@ fn names(tier: Tier) -> Vec<String> {
 /// names declared by the standard library (read from the repository's std.prql)
 fn std_names() -> std::collections::HashSet<String> {
     let mut out = std::collections::HashSet::new();
-    if let Ok(t) = std::fs::read_to_string("/repo/prqlc/prqlc/src/semantic/std.prql") {
+    if let Ok(t) = std::fs::read_to_string(format!("{}/prqlc/prqlc/src/semantic/std.prql", crate::report::repo_root())) {
         for l in t.lines() {
             let l = l.trim_start();
             for kw in ["let ", "module ", "type "] {
